@@ -46,10 +46,14 @@ def lifecycle(start, end, execute, shutdown, create="_create_dispatcher", valida
         return not ends or (bool(fo) and fo[0] < ends[0])
 
     def continue_mode_returns(tr, outcome, raised, env, ex, s):
-        """Once the run has started, an exception escapes only in raise mode (continue mode returns a FAILED result)."""
+        """Once the run has started, an Exception escapes only in raise mode (continue mode returns a FAILED result);
+        non-Exception signals (KeyboardInterrupt, SystemExit, a pause) are not errors of the run and always pass."""
         from pyvc.engine import eq, lift
+        from pyvc import smt
         if not outcome.startswith("raise") or not calls(tr, start):
             return True
+        if raised is not None and raised.exc is not None:
+            return z3.Or(eq(env["error_handling"], lift("raise"), s), z3.Not(smt.inst_pred("Exception")(raised.exc.t)))
         return eq(env["error_handling"], lift("raise"), s)
 
     def surfaced_is_cause(tr, outcome, raised, env, ex, s):
@@ -115,7 +119,7 @@ def lifecycle(start, end, execute, shutdown, create="_create_dispatcher", valida
         {"name": "C12 RunEnd status equals what the caller observes", "check": runend_status},
         {"name": "C11/C16 FAILED result: partial values filtered with default on_missing", "check": failed_filter_ignores_missing},
         {"name": "C12 outputs filtered before RunEnd(completed)", "check": completed_filter_before_runend},
-        {"name": "C11 continue mode never raises after RunStart", "check": continue_mode_returns},
+        {"name": "C11 continue mode never raises an Exception after RunStart", "check": continue_mode_returns},
         {"name": "C11 raise mode surfaces the node's own exception object (cause of the wrapper), unwrapped", "check": surfaced_is_cause},
         {"name": "C16 values of every result come from filter_outputs", "check": all_results_filtered},
     ]
